@@ -14,10 +14,16 @@
     `CompatOkUnion cands f b` (PgProofs/TypingUnion.lean) — `C04_compat_partial_union`;
   * `ExtOk child base` (PgProofs/TypingExtend.lean) — `C04_extend_partial`: the extension lands in
     `CompatOk base c'` with `isCompatible base c'`, containment then follows from compatibility.
+  * `ExtOkUnion env cands f bcs bf` (PgProofs/TypingExtendUnion.lean) — `C04_extend_partial_union`:
+    both unions simple (the complement of the F43 / F125 dispatch condition), candidates in `ExtOk`.
+  * `ExtOkDict env fs f bfs` (PgProofs/TypingExtendDict.lean) — `C04_extend_partial_dict`: no added
+    keys, shared fields in `ExtOk` and without defaults (the complement of the F42 condition).
   `C04_*_exclusion_*` show, conjunct by conjunct, that the predicates exclude nothing gratuitous.
 -/
 import PgProofs.Typing
 import PgProofs.TypingExtend
+import PgProofs.TypingExtendUnion
+import PgProofs.TypingExtendDict
 import PgProofs.TypingUnion
 import PgProofs.TypingDictIdem
 namespace Pg.Typing
@@ -501,6 +507,106 @@ theorem C04_extendSelf_partial (env : Env) (ht : SubTrans env) (child base c' : 
       CompatOk base c' = true := by
   obtain ⟨h1, h2⟩ := extend_ok env child base c' hok h
   exact ⟨fun v hv => compat_sound env ht base c' h2 h1 v hv, h1, h2⟩
+
+/-- **Extension only narrows for `Union` children** (PgProofs/TypingExtendUnion.lean): a non-frozen
+simple union extending a non-frozen simple union — candidates are non-frozen leaves of pairwise
+disjoint value types, on BOTH sides, so that `Union._apply` routes every value to the one candidate
+that can accept it (the complement of the F43 / F125 condition: no `Int` next to a `Float`) — whose
+candidates are each in `ExtOk` with the base candidate `_base_candidate` picks.  Every value the
+extended union accepts is accepted by the base union, and `base.is_compatible(result)`. -/
+theorem C04_extend_partial_union (env : Env) (ht : SubTrans env) (cands : List Spec) (f : Flags)
+    (bcs : List Spec) (bf : Flags) (c' : Spec) (hok : ExtOkUnion env cands f bcs bf = true)
+    (h : extend env (.union cands f) (.union bcs bf) = .ok c') :
+    (∀ v, accepts env c' v = true → accepts env (.union bcs bf) v = true) ∧
+      isCompatible env (.union bcs bf) c' = true :=
+  extend_union_ok env ht cands f bcs bf c' hok h
+
+/-- The simplicity of the BASE union is needed (F125): with `Int(min_value=4)` next to `Float()` the
+base routes the int 1 to its `Int` candidate; without that candidate the pair is inside the class. -/
+theorem C04_extend_exclusion_F125 :
+    let cands : List Spec := [.float none none F0, .str none F0]
+    let bcs : List Spec := [.int (some 4) none F0, .float none none F0, .str none F0]
+    ExtOkUnion env0 cands F0 bcs F0 = false ∧ simpleUnion bcs = false ∧
+    ExtOkUnion env0 cands F0 [.float none none F0, .str none F0] F0 = true ∧
+    (∃ c', extend env0 (.union cands F0) (.union bcs F0) = .ok c' ∧ accepts env0 c' (.int 1) = true) ∧
+    accepts env0 (.union bcs F0) (.int 1) = false := by
+  refine ⟨by decide, by decide, by decide, ⟨_, rfl, by decide⟩, by decide⟩
+
+/-- … and of the CHILD union (F43 on the extended side): `Union([Int(), Float(max_value=0)])` over
+`Union([Float(max_value=0), Str()])`: the `Int` candidate has no base candidate, `extend` raises. -/
+example : ExtOkUnion env0 [.int none none F0, .float none (some ⟨0, 0⟩) F0] F0
+    [.float none (some ⟨0, 0⟩) F0, .str none F0] F0 = false := by decide
+
+/-- Non-vacuity: a nested instance inside the class, with the conclusion instantiated. -/
+def exUC : List Spec := [.list (.int (some 1) none F0) 0 (some 2) F0, .float (some ⟨1, 0⟩) none F0]
+def exUB : List Spec := [.str none F0, .float none (some ⟨9, 0⟩) F0, .list (.int none (some 7) F0) 0 (some 3) F0]
+example : ExtOkUnion env0 exUC F0 exUB ⟨true, .none, false⟩ = true := by decide
+example : extend env0 (.union exUC F0) (.union exUB ⟨true, .none, false⟩) =
+    .ok (.union [.list (.int (some 1) (some 7) F0) 0 (some 2) F0, .float (some ⟨1, 0⟩) (some ⟨9, 0⟩) F0] F0) := by rfl
+
+/-- **Extension only narrows for `Dict` children with a schema** (PgProofs/TypingExtendDict.lean):
+a non-frozen `Dict(fs)` extending `Dict(bfs)`, const keys (distinct) on both sides, where the child
+declares no key the base lacks, every shared field pair is in `ExtOk` (so: any depth of lists /
+tuples / leaves below) and carries no default — the exact complement of the F42 condition: a field
+default fills in a key the base requires — and a base field the child does not override is compatible
+with itself and has no default.  `Schema.extend` merges base-first; the merged schema accepts only
+what the base schema accepts, and `base.is_compatible(result)`. -/
+theorem C04_extend_partial_dict (env : Env) (ht : SubTrans env) (fs : List Field) (f : Flags)
+    (bfs : List Field) (bf : Flags) (c' : Spec) (hok : ExtOkDict env fs f bfs = true)
+    (h : extend env (.dict (some fs) f) (.dict (some bfs) bf) = .ok c') :
+    (∀ v, accepts env c' v = true → accepts env (.dict (some bfs) bf) v = true) ∧
+      isCompatible env (.dict (some bfs) bf) c' = true := by
+  have hcf : f.frozen = false := by
+    simp only [ExtOkDict, Bool.and_eq_true, Bool.not_eq_true'] at hok
+    exact hok.1.1.1.1.1.1
+  have he : extend env (.dict (some fs) f) (.dict (some bfs) bf) =
+      extendSelf env (.dict (some fs) f) (.dict (some bfs) bf) := by
+    unfold extend
+    cases hpre : extendPre env (.dict (some fs) f) (.dict (some bfs) bf) with
+    | error e => rw [extendSelf, hpre]
+    | ok r =>
+      obtain ⟨_, hr⟩ := extendPre_ok env (.dict (some fs) f) _ r hcf rfl hpre
+      split at hr
+      · subst hr; rfl
+      · rw [hr.1]
+  rw [he] at h
+  obtain ⟨h1, h2⟩ := extend_dict_ok env fs f bfs bf c' hok h
+  exact ⟨fun v hv => compat_sound env ht _ c' h2 h1 v hv, h1⟩
+
+/-- A default on a shared child field is excluded (F42 through `extend`): the child's `Int(default=1)`
+fills the key the base requires. -/
+theorem C04_extend_exclusion_F42 :
+    let fs : List Field := [.mk (.const "x") (.int none none ⟨false, .int 1, false⟩)]
+    let bfs : List Field := [.mk (.const "x") (.int none none F0)]
+    ExtOkDict env0 fs ⟨false, .dict [("x", .int 1)], false⟩ bfs = false ∧
+    ExtOkDict env0 [.mk (.const "x") (.int none none F0)] ⟨false, .dict [("x", .missing)], false⟩ bfs = true ∧
+    (∃ c', extend env0 (.dict (some fs) ⟨false, .dict [("x", .int 1)], false⟩)
+        (.dict (some bfs) ⟨false, .dict [("x", .missing)], false⟩) = .ok c' ∧
+      accepts env0 c' (.dict []) = true) ∧
+    accepts env0 (.dict (some bfs) ⟨false, .dict [("x", .missing)], false⟩) (.dict []) = false := by
+  refine ⟨by decide, by decide, ⟨_, rfl, by decide⟩, by decide⟩
+
+/-- A key the base does not declare is excluded: schema extension adds fields by design, the
+extended dict then accepts a key the base rejects (and `base.is_compatible(result)` is False). -/
+theorem C04_extend_exclusion_added_field :
+    let fs : List Field := [.mk (.const "x") (.int none none F0), .mk (.const "y") (.int none none F0)]
+    let bfs : List Field := [.mk (.const "x") (.int none none F0)]
+    let d0 : Flags := ⟨false, .dict [("x", .missing)], false⟩
+    ExtOkDict env0 fs ⟨false, .dict [("x", .missing), ("y", .missing)], false⟩ bfs = false ∧
+    (∃ c', extend env0 (.dict (some fs) ⟨false, .dict [("x", .missing), ("y", .missing)], false⟩)
+        (.dict (some bfs) d0) = .ok c' ∧
+      accepts env0 c' (.dict [("x", .int 1), ("y", .int 2)]) = true ∧
+      isCompatible env0 (.dict (some bfs) d0) c' = false) ∧
+    accepts env0 (.dict (some bfs) d0) (.dict [("x", .int 1), ("y", .int 2)]) = false := by
+  refine ⟨by decide, ⟨_, rfl, by decide, by decide⟩, by decide⟩
+
+/-- Non-vacuity: nested element specs, a base field the child does not override, different order. -/
+def exDC : List Field := [.mk (.const "y") (.list (.int (some 1) none F0) 0 (some 2) F0),
+  .mk (.const "x") (.float (some ⟨1, 0⟩) none F0)]
+def exDBs : List Field := [.mk (.const "x") (.float none (some ⟨9, 0⟩) F0),
+  .mk (.const "y") (.list (.int none (some 7) F0) 0 (some 3) F0), .mk (.const "z") (.str none F0)]
+example : ExtOkDict env0 exDC F0 exDBs = true := by decide
+example : isOk (extend env0 (.dict (some exDC) F0) (.dict (some exDBs) F0)) = true := by decide
 
 /-! Each conjunct of `ExtOk` is needed. -/
 
